@@ -159,6 +159,12 @@ fn run_client(c: &ClientCase, addr: std::net::SocketAddr) -> Result<Vec<ApiResul
     Ok(out)
 }
 
+/// the error text of a socket time-out (sync: EAGAIN / WouldBlock, async: the Timeout variant)
+fn is_timeout(e: &str) -> bool {
+    let l = e.to_lowercase();
+    l.contains("timed out") || l.contains("timeout") || l.contains("temporarily unavailable") || l.contains("os error 11") || l.contains("wouldblock")
+}
+
 fn check_client(c: &ClientCase, obs: &mut Obs) {
     let listener = match TcpListener::bind("127.0.0.1:0") {
         Ok(l) => l,
@@ -256,6 +262,11 @@ fn check_client(c: &ClientCase, obs: &mut Obs) {
     });
     let api_res = match api_res {
         Ok(r) => r,
+        Err(e) if is_timeout(&e) => {
+            // the short socket time-outs of this check hit during establishment (loaded machine): inconclusive
+            obs.skip(format!("association establishment timed out: {e}"));
+            return;
+        }
         Err(e) => {
             obs.fail("C30:requestor cannot establish an association with a conforming acceptor", e);
             return;
@@ -305,6 +316,12 @@ fn check_client(c: &ClientCase, obs: &mut Obs) {
                     Some(PduIr::ReleaseRp) => {}
                     other => obs.fail("C30:release completed without a release reply from the peer", format!("the PDU answering the request was {:?}; {}", other.map(kind), desc())),
                 }
+                consumed += 1;
+            }
+            ApiResult::ReleaseErr(e) if is_timeout(e) => {
+                // the reply did not come within the (short) read time-out of this check: no verdict
+                sent_by_api.push("A-RELEASE-RQ?");
+                obs.class("release-timed-out");
                 consumed += 1;
             }
             ApiResult::ReleaseErr(_) => {
